@@ -129,9 +129,10 @@ SpecOK ==
            /\ DomOK(dom)
            /\ \A i \in 0..(dom.n - 1) : VanishEval(P, dom.h, dom.n, DomElem(P, dom.g, dom.h, i)) = 0
            /\ \A i, j \in 0..(dom.n - 1) : Lagrange(P, dom.g, dom.h, dom.n, i, DomElem(P, dom.g, dom.h, j)) = (IF i = j THEN 1 ELSE 0)
-           \* the O(n) relations used at full size (Trace_Poly) are theorems of the definitions
-           /\ \A i \in 0..(dom.n - 1), tau \in Taus : LagrangeClosed(P, dom.g, dom.h, dom.n, i, tau) = Lagrange(P, dom.g, dom.h, dom.n, i, tau)
-           /\ \A len \in {0, 1, dom.n - 1, dom.n, dom.n + 3} : len >= 0 =>
+           \* the O(n) relations used at full size (Trace_Poly) are theorems of the definitions (checked on the domains of up to
+           \* 32 elements: the product formula costs n^3 per domain)
+           /\ dom.n <= 32 => \A i \in 0..(dom.n - 1), tau \in Taus : LagrangeClosed(P, dom.g, dom.h, dom.n, i, tau) = Lagrange(P, dom.g, dom.h, dom.n, i, tau)
+           /\ dom.n <= 32 => \A len \in {0, 1, dom.n - 1, dom.n, dom.n + 3} : len >= 0 =>
                  LET v == [k \in 1..len |-> (k * k + 3) % P] \o <<>> IN
                  /\ \A z \in Taus : DftIdentity(P, dom.g, dom.h, dom.n, v, Dft(P, dom.g, dom.h, dom.n, Trim(v)), z)
                  \* and it discriminates: a wrong vector is rejected for all but < n values of z
